@@ -562,6 +562,10 @@ func (ca *coverAnalysis) rangesWholeSlice(li *loopInfo, field string) bool {
 			continue
 		}
 		if p.Comment != "rangeindex" {
+			// the hand-written form `for i := 0; i < len(xs); i++ { ... xs[i] ... }`
+			if ca.indexedWholeSlice(li, p, field) {
+				return true
+			}
 			continue
 		}
 		// entry value -1, back value p+1
@@ -598,6 +602,71 @@ func (ca *coverAnalysis) rangesWholeSlice(li *loopInfo, field string) bool {
 		}
 	}
 	return false
+}
+
+// indexedWholeSlice: p is a counter that starts at 0, is incremented by 1 on every back edge, the loop runs while
+// p < len(field), and every element of the field read in the loop is read at index p
+func (ca *coverAnalysis) indexedWholeSlice(li *loopInfo, p *ssa.Phi, field string) bool {
+	h := li.header
+	okInit, okStep := false, false
+	for i, pr := range h.Preds {
+		if ca.fr.backEdge[[2]int{pr.Index, h.Index}] {
+			bo, ok := p.Edges[i].(*ssa.BinOp)
+			if !ok || bo.Op != token.ADD || bo.X != ssa.Value(p) {
+				return false
+			}
+			c, ok := bo.Y.(*ssa.Const)
+			if !ok {
+				return false
+			}
+			if n, ok := constInt64(c); !ok || n != 1 {
+				return false
+			}
+			okStep = true
+		} else if c, ok := p.Edges[i].(*ssa.Const); ok {
+			if n, ok := constInt64(c); ok && n == 0 {
+				okInit = true
+			}
+		} else {
+			return false
+		}
+	}
+	if !okInit || !okStep {
+		return false
+	}
+	iff, ok := h.Instrs[len(h.Instrs)-1].(*ssa.If)
+	if !ok {
+		return false
+	}
+	cmp, ok := iff.Cond.(*ssa.BinOp)
+	if !ok || cmp.Op != token.LSS || cmp.X != ssa.Value(p) {
+		return false
+	}
+	ln, ok := cmp.Y.(*ssa.Call)
+	if !ok {
+		return false
+	}
+	if bi, ok := ln.Call.Value.(*ssa.Builtin); !ok || bi.Name() != "len" {
+		return false
+	}
+	if f, ok := ca.fieldPathOf(ln.Call.Args[0]); !ok || f != field {
+		return false
+	}
+	// the loop body must stay inside the loop when the condition holds (true edge into the loop)
+	if len(h.Succs) != 2 || !li.blocks[h.Succs[0]] {
+		return false
+	}
+	// every read of an element of the field inside the loop is at index p
+	for b := range li.blocks {
+		for _, ins := range b.Instrs {
+			if ia, ok := ins.(*ssa.IndexAddr); ok {
+				if f, ok := ca.fieldPathOf(ia.X); ok && f == field && ia.Index != ssa.Value(p) {
+					return false
+				}
+			}
+		}
+	}
+	return true
 }
 
 // helperCovers: a helper func(xs []E) []Node whose result contains every element of xs
